@@ -200,9 +200,13 @@ PROPS = {
    "definitions, proved sufficient (SF/Proofs/Fold*.lean, Rec*.lean, 33 files). Correspondence: ops `fold` (type x value x fault index -> extended events + outcome, "
    "map order taken from the implementation), `fold-seq`, `typeinfo` (reflect description of every menagerie type vs the Lean descriptor), `goval`, `foldifc`, "
    "`foldopts` (shared option values). Oracle: SF/Gotype/Rules.lean, written from the documentation only (tags.go comment, README, CHANGELOG).",
-   "Kernel-checked: mirror = rules on the universe goodT (both directions) and on self-recursive types; outside the universe by mirror + correspondence + oracle.",
-   partial="outside the proved universe (decided by oracle + correspondence): inline fields of interface kind, named types with Fold / IsZero methods or a "
-           "registered fold function (rule 2: what the folder emits), mutually recursive types, the error direction for recursive types"),
+   " PropsCustom.C12 fold_agrees_custom / fold_refuses_custom / universe_extends: the same on the EXTENDED universe goodC / wtC — rule 2 and rule 6e: named types with Fold on the value or pointer "
+   "receiver, IsZero on either receiver, registered fold functions (iff registered), in every position (top level, plain / omitempty / inline struct field, element of slice / array / map, behind "
+   "pointers, dynamic type of an interface value): the folder's value exactly as it emits it, omitempty dropped iff IsZero(), the object of a custom folder inlined. Self-checking op `foldpos`: Folders on "
+   "either receiver of types of every kind (outside the menagerie) in ten positions.",
+   "Kernel-checked: mirror = rules on the universes goodT and goodC (custom folders, IsZeroers; both directions) and on self-recursive types; outside by mirror + correspondence + oracle.",
+   partial="outside the proved universes (decided by oracle + correspondence): inline fields of interface kind, mutually recursive types, the error direction for recursive types, "
+           "custom folders that do not emit one value (user code: no demand), the nil-pointer configurations in which the documentation's rule 1 and rule 2 conflict (recorded reading)"),
  "C13": P("DESIGN.md 7 C13",
    "Lean 4 proof (ignore state machine swallows one complete value of any shape and restores the context exactly) + differential correspondence of the Unfolder mirror + specification oracle",
    "unknown_member_skipped / unknown_members_skipped / ignore_swallows_value: for every context (target, stacks, buffers, "
@@ -240,10 +244,12 @@ PROPS = {
    " PropsTyped.C14 any_events_into_typed / any_ext_events_into_typed / no_panic_any_events_into_typed / typed_complete_is_idle: the same for TYPED targets of the family "
    "bool, string, all integer widths, float32/64, interface{} closed under []T, map[string]T, *T at any nesting: ANY basic or extended event sequence is accepted or refused "
    "with an error (never a panic, a stale pointer, a wrong-shaped value behind a pointer, an out-of-range scratch slot), and a completed document leaves all six stacks and the scratch buffers idle. "
-   "Struct and user-unfolder targets: mirror / self-checking ops + correspondence + oracle.",
+   "PropsStruct.C14 any_events_into_struct / any_ext_events_into_struct / struct_complete_is_idle: the same for targets with STRUCTS — the family TTS: struct types with all tags, inline / squash to any depth, "
+   "unknown and duplicate keys, nested structs, pointers / slices / maps of structs, named types, the self-referential menagerie members (lazy registry placeholders), with a consistent registry (RegOK: holds for a "
+   "new Unfolder, preserved by SetTarget, Reset and every completed document). User-unfolder targets: self-checking op unf-userval.",
    tb=["model: SF/Gotype/Unfold.lean; facts: SF/Gen/Alloc.lean regenerated by sffacts (x/tools SSA)"],
    assumptions=GOTYPE_ASSUME,
-   partial="no-panic theorem for targets containing STRUCTS or named types not yet proved (typed family without structs: proved); "
+   partial="user unfolders and the Expander are outside the mirror (self-checking op unf-userval); "
            "writes outside the target cannot be exhibited by the model (memory safety of unsafe offsets is a runtime fact: "
            "covered by the unf-type descriptor comparison and Go's checkptr in the race run only)"),
  "C15": dict(P("DESIGN.md 7 C15",
